@@ -423,12 +423,12 @@ func main() {
 		return
 	}
 	r := gen.New(gen.Seed())
-	n := gen.Scale(250, 3000)
+	n := gen.Scale(250, 1200)
 	for i := 0; i < n; i++ {
 		history(e, r)
 	}
 	if os.Getenv("VERIF_C04_NOCONC") == "" {
-		for i, m := 0, gen.Scale(50, 600); i < m; i++ {
+		for i, m := 0, gen.Scale(50, 250); i < m; i++ {
 			concurrentHistory(e, r)
 		}
 	}
